@@ -225,12 +225,23 @@ fn gen_many_cases(seed: u64, k: u64) -> (Vec<Vec<i64>>, bool, Vec<f64>) {
 
 fn run_lexicase<R: Res>(pop: &Pop<R>, c: usize, trials: u64, seed: u64, name: &str, matrix: &[Vec<i64>], errors: bool, law: &[f64]) -> Result<Vec<u64>, Fail> {
     let lex = Lexicase::new(c);
+    // a third of the matrices go through the type-erased form of the selector (and a third of those inside a
+    // dynamic weighted list of one): the law is the selector's, whatever it is wrapped in
+    let wrap = (seed ^ matrix.len() as u64) % 9;
+    let erased: Option<Box<dyn ec_core::operator::selector::DynSelector<Pop<R>> + Send + Sync>> = match wrap {
+        0 | 1 => Some(Box::new(Lexicase::new(c))),
+        2 => Some(Box::new(ec_core::operator::selector::dyn_weighted::DynWeighted::new(Lexicase::new(c), 3))),
+        _ => None,
+    };
     let mut rng = StdRng::seed_from_u64(seed);
     // one extra slot at the end: disjoint pairs of successive selections that returned the same individual
     let mut counts = vec![0u64; pop.len() + 1];
     let mut previous = usize::MAX;
     for t in 0..trials {
-        let r = guarded(|| lex.select(pop, &mut rng).map(|w| (w.genome, std::ptr::from_ref(w))).map_err(|e| e.to_string()));
+        let r = guarded(|| match &erased {
+            Some(e) => e.select(pop, &mut rng).map(|w| (w.genome, std::ptr::from_ref(w))).map_err(|e| e.to_string()),
+            None => lex.select(pop, &mut rng).map(|w| (w.genome, std::ptr::from_ref(w))).map_err(|e| e.to_string()),
+        });
         match r {
             Err(p) => return Err(Fail::new(format!("Lexicase/panic:{}", panic_key(&p)), format!("{name}: panicked: {p}"))),
             Ok(Err(e)) => return Err(Fail::new("Lexicase/spurious-error", format!("{name}: {e}"))),
@@ -398,6 +409,7 @@ fn tie_group_jobs(thorough: bool) -> Vec<Job> {
                     }
                     let elite_n = next;
                     let lex = Lexicase::new(2);
+                    let through_erased_form = k % 2 == 1;
                     let mut rng = StdRng::seed_from_u64(seed);
                     let mut quarters = [0u64; 4];
                     let mut thirds = [0u64; 3];
@@ -413,8 +425,15 @@ fn tie_group_jobs(thorough: bool) -> Vec<Job> {
                     macro_rules! sample {
                         ($pop:expr) => {{
                             let pop = $pop;
+                            let boxed: Box<dyn ec_core::operator::selector::DynSelector<_> + Send + Sync> = Box::new(Lexicase::new(2));
                             for _ in 0..draws {
-                                match guarded(|| lex.select(&pop, &mut rng).map(|w| w.genome as usize).map_err(|e| e.to_string())) {
+                                match guarded(|| {
+                                    if through_erased_form {
+                                        boxed.select(&pop, &mut rng).map(|w| w.genome as usize).map_err(|e| e.to_string())
+                                    } else {
+                                        lex.select(&pop, &mut rng).map(|w| w.genome as usize).map_err(|e| e.to_string())
+                                    }
+                                }) {
                                     Err(p) => return Err(Fail::new(format!("Lexicase/panic:{}", panic_key(&p)), format!("{name}: panicked: {p}"))),
                                     Ok(Err(e)) => return Err(Fail::new("Lexicase/spurious-error", format!("{name}: {e}"))),
                                     Ok(Ok(id)) => one(id)?,
@@ -616,7 +635,7 @@ pub fn run(ctx: &mut Ctx) {
     let (n_matrices, trials) = ctx.tier.pick((400u64, 400_000u64), (8_000, 2_000_000));
     let n_large = ctx.tier.pick(12u64, 120);
     let n_many = ctx.tier.pick(36u64, 360);
-    ctx.rule = format!("{n_matrices} generated result matrices (1..8 individuals x 0..5 cases, values 0..3, specialists / heavy ties / groups of exact copies / singleton / zero cases / more cases than individuals, both polarities; in a quarter of the matrices every per-case result is a group of sub-results - the crate's TestResults as the per-case type - ordered by its total, so that equal-ranking results need not be structurally equal), plus {n_large} larger ones (12..100 individuals x 6..8 cases), and {n_many} with 33..257 cases whose law is known analytically (specialists: P(i) = own special cases / all special cases), configured case count = number of results in 3 of 5 matrices and a smaller count (0 included) otherwise; {trials} seeded draws each through the real Lexicase. Oracle: the exact law P(i) = sum over all case orders [i survives] / (|survivors| * c!) with an independent definition of 'better'; every draw: P(winner) > 0 (never dominated) exactly; frequencies by the Chernoff/KL rule. large tie groups: elites of 1025..70000 (thorough: ..98304) exact ties next to 7 dominated individuals, the final choice judged by the frequencies of the elite's quarters and thirds. per_draw_support: generated matrices (0..10 individuals x 0..5 cases, ties, copies, extreme values, both polarities, plain and grouped results), configured count <= number of results, a generated random stream with extreme words, 1..4 draws from one selector value which in a third of the cases also selects from another population in between; every winner must be an element of the population that survives under at least one order of an admissible set of considered cases. non-trivial = a (matrix, individual) statistic with 0 < p < 1; for per_draw_support >= 3 individuals, >= 2 configured cases and at least one individual that can never win");
+    ctx.rule = format!("{n_matrices} generated result matrices (1..8 individuals x 0..5 cases, values 0..3, specialists / heavy ties / groups of exact copies / singleton / zero cases / more cases than individuals, both polarities; in a quarter of the matrices every per-case result is a group of sub-results - the crate's TestResults as the per-case type - ordered by its total, so that equal-ranking results need not be structurally equal), plus {n_large} larger ones (12..100 individuals x 6..8 cases), and {n_many} with 33..257 cases whose law is known analytically (specialists: P(i) = own special cases / all special cases), configured case count = number of results in 3 of 5 matrices and a smaller count (0 included) otherwise; {trials} seeded draws each through the real Lexicase (a third of the matrices and half of the tie groups through its type-erased form, some inside a dynamic weighted list). Oracle: the exact law P(i) = sum over all case orders [i survives] / (|survivors| * c!) with an independent definition of 'better'; every draw: P(winner) > 0 (never dominated) exactly; frequencies by the Chernoff/KL rule. large tie groups: elites of 1025..70000 (thorough: ..98304) exact ties next to 7 dominated individuals, the final choice judged by the frequencies of the elite's quarters and thirds. per_draw_support: generated matrices (0..10 individuals x 0..5 cases, ties, copies, extreme values, both polarities, plain and grouped results), configured count <= number of results, a generated random stream with extreme words, 1..4 draws from one selector value which in a third of the cases also selects from another population in between; every winner must be an element of the population that survives under at least one order of an admissible set of considered cases. non-trivial = a (matrix, individual) statistic with 0 < p < 1; for per_draw_support >= 3 individuals, >= 2 configured cases and at least one individual that can never win");
     ctx.assumptions.push("for a configured case count c smaller than the number of results the statement does not say which c cases are considered: the law of every fixed c-subset and of a uniformly random c-subset are all accepted (the observed frequencies are judged against the reading that fits them best), and a winner only has to be possible under one of them".into());
     let (jobs, descr, discriminating, partial) = jobs(ctx.seed, n_matrices, n_large, n_many);
     ctx.extra.insert("matrices_with_fewer_configured_cases_than_results".into(), json!(partial));
